@@ -787,7 +787,9 @@ func (t *tree) parseHeaderParam(token item) ast.Node {
 func Expr(str string) (node ast.Node, err error) {
 	var t = &tree{lex: lexExpr("", str)}
 	defer t.recover(&err)
-	return t.parseExpr(0), err
+	node = t.parseExpr(0)
+	t.lex.drain()
+	return node, err
 }
 
 // boolAttr returns a boolean value from the given attribute map.
@@ -1206,6 +1208,7 @@ func (t *tree) recover(errp *error) {
 		return
 	}
 	if _, ok := e.(runtime.Error); ok {
+		t.lex.drain()
 		panic(e)
 	}
 	t.lex.drain()
